@@ -581,6 +581,13 @@ def rule_r5(ctx, rep):
     check_slice(ctx, rep, "R5", funcs, "a Node query / edit")
 
 
+# R2 (positions in shift proven in bounds, returned index follows the swaps) and R4 (shape of the query loops) claim what R8 / R7 decide by
+# folding shift and the queries over every position class; they stand on their own whenever the fold is incomplete or reports something
+FOLDS = {"R7": {"count": "query verdicts", "min": 160, "about": ("find_", "get_ancestry", "child_index")},
+         "R8": {"count": "edit verdicts", "min": 42, "about": ("add_child", "remove_child", "replace_child", "shift", "remove_children")}}
+SUBORDINATE = {"R2": "R8", "R4": "R7"}
+
+
 def run(ctx, rep):
     rep.explanation = (
         "link pairing: every statement that puts an object into a child list is accompanied, on all paths (marker dataflow, "
@@ -596,4 +603,4 @@ def run(ctx, rep):
     from .c09_worlds import rule_r7, rule_r8
     for name, fn in (("R1", rule_r1), ("R2", rule_r2), ("R3", rule_r3), ("R4", rule_r4), ("R5", rule_r5), ("R7", rule_r7), ("R8", rule_r8)):
         if only in (None, name):
-            fn(ctx, rep)
+            rep.guarded(name, fn, ctx, rep)
